@@ -1441,9 +1441,11 @@ func (r *Raft) InstallSnapshot(
 
 	r.lastContact = time.Now()
 
-	// The received snapshot does not contain anything new.
+	// The received snapshot does not contain anything new. Acknowledge the bytes so that
+	// the leader proceeds to the end of the snapshot and learns that it is not needed.
 	if r.lastIncludedIndex >= request.LastIncludedIndex ||
 		r.lastApplied >= request.LastIncludedIndex {
+		response.BytesWritten = request.Offset + int64(len(request.Bytes))
 		return nil
 	}
 
@@ -1745,7 +1747,7 @@ func (r *Raft) sendInstallSnapshot(id, address string) {
 
 	// The follower is either missing part of the snapshot or already has this part.
 	// Reset to the follower's offset.
-	if response.BytesWritten != offset {
+	if response.BytesWritten != offset+n {
 		if _, err := follower.snapshot.Seek(response.BytesWritten, io.SeekStart); err != nil {
 			r.logger.Fatalf("failed to seek snapshot file: error = %v", err)
 		}
